@@ -261,9 +261,11 @@ func genC29(r *Rand, tier string) Case {
 				if k >= np {
 					p = r.Intn(np)
 				}
-				c := next(true)
-				if c.size() > 2048 { // keep concurrent groups cheap; a duplicate may have copied a big one
-					c = c29Cmd{P: fmt.Sprintf("par %d", id)}
+				// mostly small; a third are a few KiB (larger than any buffer a writer might put in front of the
+				// file, so that one record can become more than one system call)
+				c := next(r.Intn(3) > 0)
+				if c.size() > 16*1024 { // keep concurrent groups cheap; a duplicate may have copied a big one
+					c = c29Cmd{P: fmt.Sprintf("par %d ", id), Fill: r.Pick(c29Fills), N: 4200 + r.Intn(4000), S: " #end"}
 					all[len(all)-1] = c
 				}
 				st.Par[p] = append(st.Par[p], c)
